@@ -163,7 +163,7 @@ def c22_named():
 
 def run(ctx):
     jobs = ctx.pick([("simp", 4), ("simptyped", 3), ("query", 4)],
-                    [("simp", 4), ("simptyped", 5), ("query", 4)])
+                    [("simp", 4), ("simptyped", 4), ("query", 4)])
     enum = L.enumerate_programs(ctx, jobs, "prog")
     binary = ctx.go_build("vh-lang")
     progs = []
@@ -172,8 +172,8 @@ def run(ctx):
     nenum = len(progs)
     named = c22_named() + L.named_programs()
     progs.extend(named)
-    progs.extend(L.random_programs(ctx.seed, ctx.pick(800, 10000), maxdepth=ctx.pick(4, 5), maxsize=ctx.pick(18, 24)))
-    progs.extend(L.random_programs(ctx.seed + 7919, ctx.pick(800, 6000), maxdepth=4, maxsize=ctx.pick(18, 24), queries=True))
+    progs.extend(L.random_programs(ctx.seed, ctx.pick(800, 6000), maxdepth=ctx.pick(4, 5), maxsize=ctx.pick(18, 24)))
+    progs.extend(L.random_programs(ctx.seed + 7919, ctx.pick(800, 4000), maxdepth=4, maxsize=ctx.pick(18, 24), queries=True))
 
     cases = [{"id": i, "p": p, "simplify": True} for i, p in enumerate(progs)]
     vs = ctx.run_cases(binary, "observe", cases, name="observe", timeout_ms=30000)
